@@ -15,7 +15,7 @@ PROP = dict(
     engines=[dict(
         name="locks", classify=classify,
         quick=dict(cases=100, shards=1, profiles=["debug"]),
-        thorough=dict(cases=100000, shards=1, profiles=["debug"]),
+        thorough=dict(cases=6000, shards=1, profiles=["debug"]),
     )],
     exhaustive=True,
     rule="inputs: (1) one `prog` case per recorded scenario = public operation x allocator path, driven single-threaded "
